@@ -51,7 +51,11 @@ func (c *Cases) Next() (idx int, mine bool) {
 	case c.replay >= 0:
 		return idx, idx == c.replay
 	}
-	return idx, idx%c.e.NShards == c.e.Shard
+	mine = idx%c.e.NShards == c.e.Shard
+	if mine {
+		c.e.mark(c.st.Name, []Point{{Kind: "case", N: 1 << 30, Chosen: idx}})
+	}
+	return idx, mine
 }
 
 // Record accounts for one evaluated case. obs is its outcome class.
